@@ -122,11 +122,12 @@ CHECKS = {
             'ZeroOrMore, Suppress, results names, filler skipping, Keyword look-around, the DEFAULT_ARG scanner, tab expansion); '
             'Parse/Build.v mirrors the node constructors incl. their validation. Obligations (Props/C01.v): the regenerated term IS '
             'the hand-written grammar the theorems are about; fingerprints of DEFAULT_ARG and the comment expression unchanged. '
-            'Theorems used: covering (C07) and layout (C12) theorems over this interpreter. Decided per input: (a) implementation '
+            'Theorem C01_type_roundtrip (Parse/RoundTrip.v): every well-formed type, printed, parses back to itself at any depth. Decided per input: (a) implementation '
             'tree = the declarations the generator rendered (kinds, names, nesting, types to any depth, template lists, default text, '
             'bases, flags), (b) model tree = implementation tree, in five layout styles; recorded findings by witness.',
-            'partial: no print/parse round-trip THEOREM over all trees yet (the mirror property itself is decided by the generator-based '
-            'comparison and the model tie, both sampling); pyparsing semantics is modelled, tied by correspondence.',
+            'partial: the print/parse round-trip THEOREM (C01_type_roundtrip) covers the type sub-language - basic and custom types, '
+            'namespace paths, const/*/@/&, template arguments to any depth; for arguments, members and declarations the mirror '
+            'property is decided by the generator-based comparison and the model tie (sampling); pyparsing semantics is modelled.',
             'Coq model regenerated from live grammar objects (translator) + tie obligations + model/implementation correspondence', '6 C01'),
     'C07': ('proof', 'Theorems (Props/C07.v) for EVERY grammar over pyparsing\'s terminals: whatever the interpreter matches, the text '
             'consumed is exactly an interleaving of filler and of the texts matched by terminals in order, and the leaves of the match '
